@@ -241,6 +241,42 @@ fn run(ctx: &mut Ctx) {
             }
         }
     }
+    // ---------------- (b1') nested images: a complete image of kind K inside the payload of another tag is not a tag
+    ctx.bound("nested_images", "per kind K: a custom tag (type 0x1337) and a module tag whose payload holds a complete, 8-aligned image of kind K, placed before / after the real tag of kind K or without it: the getter selects the real tag or nothing");
+    for kind in 0..=21u32 {
+        for wrapper in [0x1337u32, bi::MODULE] {
+            for arrangement in 0..3 {
+                let real = bi::sample(kind, 1, 1);
+                let inner = bi::sample(kind, 2, 2);
+                let pre = if wrapper == bi::MODULE { 8 } else { 0 };
+                let mut nest = vec![0u8; 8 + pre];
+                nest.extend_from_slice(&inner);
+                while nest.len() % 8 != 0 {
+                    nest.push(0);
+                }
+                wr32(&mut nest, 0, wrapper);
+                let nl = nest.len() as u32;
+                wr32(&mut nest, 4, nl);
+                if wrapper == bi::MODULE && kind == bi::MODULE {
+                    continue; // the wrapper itself would be the first module
+                }
+                let mut tags = match arrangement {
+                    0 => vec![nest, real],
+                    1 => vec![real, nest],
+                    _ => vec![nest],
+                };
+                tags.push(bi::end_tag());
+                let region = bi::region(&tags, &bi::marker_pad);
+                let describe = || J::obj().set("part", "nested_images").set("kind", bi::kind_name(kind)).set("wrapper_type", wrapper).set("arrangement", ["nest, real", "real, nest", "nest only"][arrangement]).set("region", J::hex(&region[..region.len().min(128)]));
+                ctx.leaf(describe, |ctx| {
+                    ctx.state(hash::hash_bytes(&region));
+                    ctx.nontrivial();
+                    let want = expected_for(&region, kind);
+                    check_getter(ctx, &big_arena0, &region, kind, want, "nested_images");
+                });
+            }
+        }
+    }
     // ---------------- (b2) many tags: every kind present, in every rotation, surrounded by repeated custom tags
     ctx.bound("many_tags", "regions holding all 21 non-end kinds (EfiBs left out in half of them) in each of the 21 rotations, each kind followed by a custom tag, the whole sequence followed by a second instance of every kind: 60+ tags per region; all 22 getters");
     for rot in 0..21usize {
